@@ -10,12 +10,28 @@ thread_local! {
     pub static CMP: Cell<u64> = Cell::new(0);
     /// when non-zero: the `cmp` call that makes `CMP` reach this value panics
     pub static FUSE: Cell<u64> = Cell::new(0);
+    /// when non-zero: the user callback (predicate, setter, source iterator `next`) whose ordinal reaches this value panics
+    pub static CBFUSE: Cell<u64> = Cell::new(0);
+    /// number of user callbacks run so far
+    pub static CBCOUNT: Cell<u64> = Cell::new(0);
     /// number of live `SItem` + `Pri` values (for leak / double-drop detection)
     pub static LIVE: Cell<i64> = Cell::new(0);
     /// total number of drops observed
     pub static DROPS: Cell<u64> = Cell::new(0);
     /// when true, `LIVE`/`DROPS` accounting is on
     pub static TRACK: Cell<bool> = Cell::new(false);
+}
+
+/// called at the start of every user callback the harness passes to the crate
+pub fn cb_tick() {
+    let n = CBCOUNT.with(|c| {
+        c.set(c.get() + 1);
+        c.get()
+    });
+    if CBFUSE.with(|f| f.get()) == n {
+        CBFUSE.with(|f| f.set(0));
+        panic!("injected: callback panic");
+    }
 }
 
 pub fn cmp_count() -> u64 {
@@ -25,9 +41,25 @@ pub fn cmp_count() -> u64 {
 /// An item whose `Eq`/`Hash` look at `name` only; `payload` is the part that "does not take part in
 /// Eq/Hash" (C12).  `Borrow<str>` gives the borrowed-key lookups.
 #[derive(Debug, Serialize, Deserialize)]
+#[serde(from = "SItemRaw")]
 pub struct SItem {
     pub name: String,
     pub payload: u64,
+}
+
+/// deserialization goes through `SItem::new`-style accounting
+#[derive(Deserialize)]
+pub struct SItemRaw {
+    name: String,
+    payload: u64,
+}
+impl From<SItemRaw> for SItem {
+    fn from(r: SItemRaw) -> Self {
+        if TRACK.with(|t| t.get()) {
+            LIVE.with(|l| l.set(l.get() + 1));
+        }
+        SItem { name: r.name, payload: r.payload }
+    }
 }
 
 impl SItem {
@@ -80,8 +112,14 @@ impl Borrow<str> for SItem {
 
 /// A priority that counts comparisons and can be told to panic at the k-th one.
 #[derive(Debug, Serialize, Deserialize, PartialEq, Eq)]
-#[serde(transparent)]
+#[serde(from = "i64")]
 pub struct Pri(pub i64);
+
+impl From<i64> for Pri {
+    fn from(v: i64) -> Self {
+        Pri::new(v)
+    }
+}
 
 impl Pri {
     pub fn new(v: i64) -> Self {
